@@ -187,9 +187,12 @@ func rulesC07(p *Prog, r *Report) {
 	s2n := p.Func(p.ExpPkg, "stringsToNodes")
 	sat := p.Func(p.ExpPkg, "Satisfies")
 	isc := p.Func(p.ExpPkg, "isCompatible")
-	if s2n == nil || sat == nil || isc == nil {
-		r.Unknown("S1", "anchor", "-", "unresolved anchor: stringsToNodes / Satisfies / isCompatible")
+	if s2n == nil || sat == nil {
+		r.Unknown("S2", "anchor", "-", "unresolved anchor: stringsToNodes / Satisfies")
 		return
+	}
+	if isc == nil {
+		isc = sat // only used to position the report: the readers of the allowed nodes are found by following the slice
 	}
 	rulesAllowedSet(p, r)
 	// S2: formula polarity
